@@ -1777,6 +1777,20 @@ fn c16_cands(rng: &mut Rng, pre: &Snap, _t: Tier) -> Vec<Cand> {
     let (c, l) = (pre.columns, pre.lines);
     let mut v = Vec::new();
     let grow = |nl: u32, nc: u32| Op::Api(Resize(Some(nl + 2), Some(nc + 2)));
+    // a width remembered by DECCOLM is just a number: resizing to exactly that width later - in or
+    // out of 132-column mode, after an RM ?3 at another width - is an ordinary resize
+    for _ in 0..3 {
+        let w2 = rng.range(c + 1, c + 30);
+        let mut ops = vec![Op::Api(SetMode(vec![3], true)), Op::Api(Resize(None, Some(w2)))];
+        if rng.bool() {
+            ops.push(Op::Api(ResetMode(vec![3], true)));
+        }
+        ops.push(Op::Api(CursorPosition(Some(1), Some(1))));
+        ops.push(Op::Api(Draw("$keep".into())));
+        ops.push(Op::Api(Resize(None, Some(c))));
+        ops.push(Op::Api(Resize(None, Some(c + 3))));
+        v.push(Cand { ops });
+    }
     if c <= 8 && l <= 5 {
         for nl in 1..=l + 2 {
             for nc in 1..=c + 2 {
